@@ -58,6 +58,18 @@ Leaves == FLeaves(Par)
 (* "the one with the most primary-slot blocks on its chain after the       *)
 (* finalised root, ties broken by greater height, then earlier arrival,    *)
 (* then lower hash"                                                        *)
+BestOf(lv, rt, inf) ==
+  LET P == [b \in lv |-> inf[b].p]
+      lvs == FLeaves(P)
+      pc(l) == Cardinality({x \in FAncSelf(P, l) \ {rt} : inf[x].prim})
+      bet(a, b) == \/ pc(a) > pc(b)
+                   \/ pc(a) = pc(b) /\ inf[a].n > inf[b].n
+                   \/ pc(a) = pc(b) /\ inf[a].n = inf[b].n /\ inf[a].arr < inf[b].arr
+                   \/ pc(a) = pc(b) /\ inf[a].n = inf[b].n /\ inf[a].arr = inf[b].arr /\ inf[a].hr < inf[b].hr
+  (* "The best block is always a leaf"                                     *)
+  IN CHOOSE l \in lvs : \A m \in lvs \ {l} : bet(l, m)
+Best == BestOf(live, root, info)
+(* the same order, on the current state (used by the properties below)     *)
 PrimCount(l) == Cardinality({x \in FAncSelf(Par, l) \ {root} : info[x].prim})
 Better(a, b) ==
   LET pa == PrimCount(a) pb == PrimCount(b) IN
@@ -65,8 +77,6 @@ Better(a, b) ==
   \/ pa = pb /\ Num(a) > Num(b)
   \/ pa = pb /\ Num(a) = Num(b) /\ info[a].arr < info[b].arr
   \/ pa = pb /\ Num(a) = Num(b) /\ info[a].arr = info[b].arr /\ info[a].hr < info[b].hr
-(* "The best block is always a leaf"                                       *)
-Best == CHOOSE l \in Leaves : \A m \in Leaves \ {l} : Better(l, m)
 
 --------------------------------------------------------------------------
 (* ---- operations -------------------------------------------------------- *)
@@ -83,7 +93,9 @@ OrphanOps == {[op |-> "AddOrphan", b |-> ScratchId, p |-> p, n |-> IF p \in Know
 DupOps == {[op |-> "AddDup", b |-> b] : b \in live}
 WrongNumOps == {[op |-> "AddWrongNum", b |-> ScratchId, p |-> p, n |-> Num(p) + 2, prim |-> FALSE, arr |-> 1,
                  hr |-> HashRank[ScratchId]] : p \in live}
-FinOps == {[op |-> "Finalise", b |-> b, r |-> att + 1, s |-> s] : b \in Known \cup {Unknown}, s \in {rs.s, IF rs.s < 2 THEN rs.s + 1 ELSE rs.s}}
+(* the set id only matters to the dot/state projection; it never decreases *)
+SetIds == IF ObsKind = "state" THEN {rs.s, IF rs.s < 2 THEN rs.s + 1 ELSE rs.s} ELSE {rs.s}
+FinOps == {[op |-> "Finalise", b |-> b, r |-> att + 1, s |-> s] : b \in Known \cup {Unknown}, s \in SetIds}
 
 Ops == {o \in AddOps \cup OrphanOps \cup DupOps \cup WrongNumOps \cup FinOps : o.op \in OpKinds}
 
@@ -106,25 +118,46 @@ Result(o) ==
 (* lib/blocktree: "Ancestry, lowest-common-ancestor, range and by-number   *)
 (* queries agree with the parent links."  Every query for every pair /     *)
 (* number, computed from the parent function by Forest's operators.        *)
+(* TreeObsOf is written for speed (ancestor sets are computed once, depths  *)
+(* are read off the block numbers); TreeObsSlow is the same observation    *)
+(* written with Forest's operators only, and ObsAgree (engine M) checks    *)
+(* that the two coincide on every reachable state.                         *)
 TreeObsOf(lv, rt, inf) ==
+  LET P == [b \in lv |-> inf[b].p]
+      A == [b \in lv |-> FAncSelf(P, b)]
+      L == FSorted(lv)
+      n == Len(L)
+      lvs == lv \ {inf[b].p : b \in lv}
+      best == BestOf(lv, rt, inf)
+      rn == inf[rt].n
+      maxn == CHOOSE m \in {inf[b].n : b \in lv} : \A b \in lv : inf[b].n <= m
+      lca(a, b) == LET C == A[a] \cap A[b] IN CHOOSE c \in C : \A d \in C : inf[d].n <= inf[c].n
+      path(a, b) == IF a \in A[b]
+                    THEN [i \in 1..(inf[b].n - inf[a].n + 1) |-> CHOOSE x \in A[b] : inf[x].n = inf[a].n + i - 1]
+                    ELSE <<>>
+  IN [root |-> rt, rootnum |-> rn, live |-> L, leaves |-> FSorted(lvs), best |-> best,
+      q |-> [k \in 1..(n * n) |->
+               LET a == L[((k - 1) \div n) + 1]
+                   b == L[((k - 1) % n) + 1]
+               IN [a |-> a, b |-> b, d |-> a \in A[b], l |-> lca(a, b), r |-> path(a, b)]],
+      \* by-number on the best chain, numbers rootnum .. number(best)
+      byn |-> path(rt, best),
+      \* all blocks at a number, numbers rootnum .. highest number in the tree
+      atn |-> [i \in 1..(maxn - rn + 1) |-> FSorted({b \in lv : inf[b].n = rn + i - 1})],
+      \* every block with all its descendants (itself included)
+      ds |-> [i \in 1..n |-> FSorted({b \in lv : L[i] \in A[b]})]]
+
+TreeObsSlow(lv, rt, inf) ==
   LET P == [b \in lv |-> inf[b].p]
       L == FSorted(lv)
       n == Len(L)
-      lvs == FLeaves(P)
-      pc(l) == Cardinality({x \in FAncSelf(P, l) \ {rt} : inf[x].prim})
-      bet(a, b) == \/ pc(a) > pc(b)
-                   \/ pc(a) = pc(b) /\ inf[a].n > inf[b].n
-                   \/ pc(a) = pc(b) /\ inf[a].n = inf[b].n /\ inf[a].arr < inf[b].arr
-                   \/ pc(a) = pc(b) /\ inf[a].n = inf[b].n /\ inf[a].arr = inf[b].arr /\ inf[a].hr < inf[b].hr
-      best == CHOOSE l \in lvs : \A m \in lvs \ {l} : bet(l, m)
-  IN [root |-> rt, rootnum |-> inf[rt].n, live |-> L, leaves |-> FSorted(lvs), best |-> best,
+      best == BestOf(lv, rt, inf)
+  IN [root |-> rt, rootnum |-> inf[rt].n, live |-> L, leaves |-> FSorted(FLeaves(P)), best |-> best,
       q |-> [k \in 1..(n * n) |->
                LET a == L[((k - 1) \div n) + 1]
                    b == L[((k - 1) % n) + 1]
                IN [a |-> a, b |-> b, d |-> FIsAncSelf(P, a, b), l |-> FLCA(P, a, b), r |-> FPath(P, a, b)]],
-      \* by-number on the best chain, numbers rootnum .. number(best)
       byn |-> [i \in 1..(inf[best].n - inf[rt].n + 1) |-> FAncAtDepth(P, best, i - 1)],
-      \* all blocks at a number, numbers rootnum .. rootnum + height
       atn |-> [i \in 1..(FHeight(P) + 1) |-> FSorted(FAtDepth(P, i - 1))],
       ds |-> [i \in 1..n |-> FSorted(FDescSelf(P, L[i]))]]
 
@@ -139,7 +172,7 @@ TreeObsOf(lv, rt, inf) ==
 StateObsOf(lv, rt, inf, ch, rs0) ==
   [head |-> rt, r |-> rs0.r, s |-> rs0.s, chain |-> ch, unfin |-> FSorted(lv \ {rt}),
    tries |-> FSorted(lv), gone |-> FSorted(DOMAIN inf \ (lv \cup FSeqSet(ch))),
-   best |-> TreeObsOf(lv, rt, inf).best]
+   best |-> BestOf(lv, rt, inf)]
 
 ObsOf(lv, rt, inf, ch, rs0) ==
   IF ObsKind = "tree" THEN TreeObsOf(lv, rt, inf)
@@ -261,7 +294,9 @@ BestIsBestLeaf ==
   /\ Best \in Leaves
   /\ \A m \in Leaves \ {Best} : Better(Best, m) /\ ~Better(m, Best)
   /\ \A a \in Leaves, b \in Leaves : a # b => (Better(a, b) <=> ~Better(b, a))
-  /\ TreeObsOf(live, root, info).best = Best
+
+(* the fast observation is the Forest-defined observation                  *)
+ObsAgree == TreeObsOf(live, root, info) = TreeObsSlow(live, root, info)
 
 View == <<info, live, root, chain, rs, att>>
 =============================================================================
